@@ -6,6 +6,7 @@ import props_cache
 import props_life
 import props_keys
 import props_panic
+import props_sibling
 
 COMMON_ASSUMPTIONS = [
     "rustc's type checker / MIR construction and the fact extractor's serialisation are trusted",
@@ -95,6 +96,11 @@ PROPS = {
                             "and no unexpected user callback under a lock.",
                 assumptions=["overflow checks (debug builds only) on cost / counter arithmetic are not counted as panic sites: costs are user data outside the configuration space of C20",
                              "the system clock does not step backwards (Time::elapsed / unix unwrap a SystemTimeError)"]),
+    "C19": dict(fn=props_sibling.check_C19, floor={"sync": 0, "async": 750},
+                explanation="AsyncCache vs Cache decided structurally: (R19.1) every rule of every other property is instantiated on the async flavour - the only analysis the async code gets, "
+                            "since the pinned test-suite never compiles it; (R19.2) effect-skeleton diff of 35 sibling function pairs: the sets of path signatures (multiset of store / policy / "
+                            "metrics / callback / channel / flag effects per path-sensitive return state), closure effects and return classes must be equal modulo .await and type renaming, "
+                            "except for a frozen table of accepted differences with one reason each."),
 }
 
 NOT_APPLICABLE = {}
